@@ -63,7 +63,8 @@ finally:
     drop(clean); drop(mut)
 ok = res.get("demo_on_clean_exit") == 0 and res.get("builds") and res.get("suite_passes_with_change") and res.get("demo_on_changed_exit", 0) != 0
 res["confirmed"] = bool(ok)
-res["caught_by"] = [c for c, v in res.get("checks", {}).items() if v["exit"] == 1]
+res["caught_by"] = [c for c, v in res.get("checks", {}).items() if v["exit"] == 1 and v["violation_lines"]]
+res["check_crashed"] = [c for c, v in res.get("checks", {}).items() if v["exit"] not in (0, 1) or (v["exit"] == 1 and not v["violation_lines"])]
 print(json.dumps(res, indent=1))
 if ok:
     dst = f"/verif/seeded/{pid}-{var}"
